@@ -367,7 +367,7 @@ std::string run_one(const RunSpec& spec, unsigned wall_timeout_s)
     return abnormal_json(spec, "hang", "no result within " + std::to_string(wall_timeout_s) + " s of real time (no scheduling point reached: busy loop?)", tail);
   }
   bool complete = !out.empty() && out.back() == '\n';
-  if (spec.verbose && getenv("SIMRT_SHOW_STDERR"))
+  if (getenv("SIMRT_SHOW_STDERR"))
   {
     std::string t = read_file_tail(errpath, 0);
     fwrite(t.data(), 1, t.size(), stderr);
